@@ -170,6 +170,11 @@ func synPos(raw json.RawMessage, _ []string) (any, error) {
 					case *syntax.Lit:
 						if !inHdoc && !hasBsNl && !hasBqBs && !hasDashHdoc {
 							off, end := int(x.ValuePos.Offset()), int(x.ValueEnd.Offset())
+							// CRLF is read as LF: the CR of a pair that ends the literal belongs to the line ending
+							// (the repository's own checker makes the same allowance)
+							if end < len(src) && end > off && src[end] == '\n' && src[end-1] == '\r' {
+								end--
+							}
 							if end <= len(src) && off <= end && string(bytes.ReplaceAll(bytes.ReplaceAll(src[off:end], []byte{0}, nil), []byte("\r\n"), []byte("\n"))) != x.Value {
 								fail("lit-text", "Lit", fmt.Sprintf("src[%d:%d]=%q but Value=%q", off, end, src[off:end], x.Value))
 							}
